@@ -87,6 +87,10 @@ def bounded_path(seed, tier):
                 bad = 'designator parts %r, expected %r' % ((x.seg_id, x.id_val, x.ele_idx, x.subele_idx), refdes_parts(last))
             elif not is_refdes(last) and not (x.seg_id is None and x.id_val is None and x.ele_idx is None and x.subele_idx is None):
                 bad = 'designator parts set for a path that names only loops'
+        elif len(t) > 1 and t.endswith('/') and wf_path(t[:-1]) and not is_refdes(last_piece(body_of(t[:-1]), '/')):
+            # a trailing slash after loop ids: "no segment" - the loops are kept, nothing else is set
+            if x.__repr__() != t[:-1] or x.seg_id is not None or '' in x.loop_list:
+                bad = 'a trailing slash changed the loop list: %r prints as %r' % (x.loop_list, x.__repr__())
         if bad and len(fails) < 8:
             fails.append({'input': {'path_str': t}, 'detail': bad})
     return {'function': 'pyx12.path.X12Path.__init__', 'evaluations': n,
